@@ -81,8 +81,12 @@ def gen_case(tape, tier):
     ops = []
     ntag = 0
     for _ in range(2 + tape.choose(7, "nops")):
-        k = tape.pick(["call", "call", "call", "call", "repeat", "run", "update_defaults", "update_bound", "replace", "map"], "op")
-        if k in ("call", "run"):
+        k = tape.pick(["call", "call", "call", "call", "repeat", "run", "update_defaults", "update_bound", "replace", "map"]
+                      + (["disk_wipe"] if ctype == "disk" else []), "op")
+        if k == "disk_wipe":
+            # somebody else who shares the cache directory (another pipeline / process) clears or evicts its files
+            ops.append({"op": "disk_wipe"})
+        elif k in ("call", "run"):
             o = tape.pick(outs, "output")
             ups = [x for x in outs if x != o and prod[x]["name"] in upstream(w, o) and x not in prod[o]["outputs"]]
             supplied = [x for x in ups if tape.coin(0.25, "supply")]
@@ -101,12 +105,30 @@ def gen_case(tape, tier):
         elif k in ("update_defaults", "update_bound"):
             fd = tape.pick(w["functions"], "fn")
             p = tape.pick(fd["params"], "param")
-            ops.append({"op": k, "fn": fd["name"], "param": p, "value": tape.choose(2, "value")})
+            ops.append({"op": k, "fn": fd["name"], "param": p, "value": tape.choose(2, "value"),
+                        # two values that differ only in the tenth digit (or inside a list): still two different values
+                        "vkind": tape.pick(["str", "str", "float", "floatlist"], "value-kind")})
         elif k == "replace":
             ntag += 1
             ops.append({"op": "replace", "fn": tape.pick(fnames, "fn"), "tag": f"'{ntag}"})
         else:
             ops.append({"op": "map", "values": {r: tape.choose(2, "value") for r, d in w["inputs"].items() if d["kind"] == "scalar"}})
+    if tape.coin(0.3, "mutation-scenario"):
+        # directed histories: the same call before and after each of two updates of ONE parameter of a function the call
+        # depends on (second value possibly almost equal to the first), optionally with the cache files gone in between
+        calls = [o for o in ops if o["op"] in ("call", "run")]
+        if calls:
+            c0 = tape.pick(calls, "scenario-call")
+            fns = upstream(w, c0["output"])
+            fname = tape.pick(sorted(fns), "scenario-fn")
+            fd = next(f for f in w["functions"] if f["name"] == fname)
+            par = tape.pick(fd["params"], "scenario-param")
+            kind = tape.pick(["update_bound", "update_bound", "update_defaults"], "scenario-kind")
+            vk = tape.pick(["str", "float", "floatlist"], "scenario-vkind")
+            v0 = tape.choose(2, "value")
+            wipe = [{"op": "disk_wipe"}] if ctype == "disk" and tape.coin(0.5, "scenario-wipe") else []
+            ops = [c0, {"op": kind, "fn": fd["name"], "param": par, "value": v0, "vkind": vk}, {"op": "repeat"}, *wipe,
+                   {"op": kind, "fn": fd["name"], "param": par, "value": 1 - v0, "vkind": vk}, {"op": "repeat"}]
     roots = [n for n, d in w["inputs"].items() if d["kind"] == "scalar"]
     array_roots = [r for r in roots if tape.coin(0.2, "array-root")]
     return {"part": "A", "workload": w, "cached": cached, "cache": cache, "ops": ops, "array_roots": array_roots}
@@ -366,6 +388,10 @@ def run_A(case, tape, clear_on_mutation=False):
                     prev = op2
                 elif kind in ("update_defaults", "update_bound"):
                     val = _val(op2["param"], op2["value"]) + ("-dflt" if kind == "update_defaults" else "-bnd")
+                    if op2.get("vkind") == "float":
+                        val = 1.0 + 4e-10 * op2["value"]
+                    elif op2.get("vkind") == "floatlist":
+                        val = [2.0, 3.0 + 3e-10 * op2["value"]]
                     def mut(p, _is_cached, kind=kind, val=val):
                         getattr(p[fn_out[op2["fn"]]], kind)({op2["param"]: val})
 
@@ -384,6 +410,14 @@ def run_A(case, tape, clear_on_mutation=False):
                     if clear_on_mutation and cached.cache is not None:
                         cached.cache.clear()
                     probes[kind] = probes.get(kind, 0) + 1
+                elif kind == "disk_wipe":
+                    d = os.path.join(root, "diskcache")
+                    if os.path.isdir(d):
+                        for fn_ in sorted(os.listdir(d)):
+                            if fn_.endswith(".pkl"):
+                                os.unlink(os.path.join(d, fn_))
+                    probes["disk_wipe"] = probes.get("disk_wipe", 0) + 1
+                    prev_resident[0] = None
                 elif kind == "replace":
                     fd = next(f for f in w["functions"] if f["name"] == op2["fn"])
                     def mut(p, is_cached, fd=fd):
